@@ -496,7 +496,7 @@ class SpooledStringIO(SpooledIOBase):
     @property
     def len(self):
         """Determine the number of codepoints in the file"""
-        pos = self.buffer.tell()
+        tell = self._tell
         self.buffer.seek(0)
         total = 0
         while True:
@@ -504,7 +504,10 @@ class SpooledStringIO(SpooledIOBase):
             if not ret:
                 break
             total += len(ret)
-        self.buffer.seek(pos)
+        # go back by codepoint position: the byte position of the
+        # underlying stream may be ahead of it (decoder read-ahead), and
+        # counting through read() has moved the codepoint position
+        self.seek(tell)
         return total
 
 
